@@ -374,6 +374,7 @@ class Emitter:
         emit_serial(self)
         emit_print_facts(self)
         emit_init_facts(self)
+        emit_throws(self)
         emit_fmt_triples(self)
         emit_model_overloads(self)
         self.n_inverse_pairs = emit_inverse_pairs(self)
@@ -853,6 +854,8 @@ def emit_table_obligations(em):
     one('C08unit', 'unitTypes.all Chk.C08unit = true')
     one('C08plain', 'plainEnums.all Chk.C08plain = true')
     one('C08spell', 'unitTypes.all Chk.C08spell = true')
+    one('C20lookups', 'unitTypes.all Chk.C20lookups = true')
+    one('C20abbr', 'plainEnums.all Chk.C20abbr = true')
     for f in (32, 64, 80):
         one('C01k%d' % f, '(unitTypes.zip kernelsByType%d).all (Chk.C01 .f%d) = true' % (f, f))
 
@@ -953,6 +956,35 @@ def emit_init_facts(em):
     L.append('def tableDecls : List TableDecl :=\n  %s' % ' ++ '.join('tableDecls_%d' % ci for ci in range(len(chunks))))
     L.append('end PhQVerif.Generated')
     em.write('InitFacts.lean', '\n'.join(L) + '\n')
+
+
+def emit_throws(em):
+    """C20: every (entry, format, branch) on which the traced real code raised an exception, and every
+    entry whose runs with identical branch outcomes disagreed (non-determinism)."""
+    rows, bad = [], []
+
+    def walk(t, eid, fmt):
+        if t['t'] == 'leaf':
+            if t.get('error'):
+                rows.append('(%s, %d, %s)' % (lean_str(eid), fmt, lean_str(str(t['error'])[:200])))
+        elif t['t'] == 'node':
+            walk(t['yes'], eid, fmt)
+            walk(t['no'], eid, fmt)
+        elif t['t'] == 'inconsistent':
+            bad.append('(%s, %d)' % (lean_str(eid), fmt))
+    n = 0
+    for e in em.model:
+        for inst in e['instances']:
+            for f, v in inst['fmts'].items():
+                n += 1
+                walk(v['tree'], e['id'], int(f))
+    L = ['-- GENERATED by emit_lean.py -- do not edit.', 'namespace PhQVerif.Generated', '',
+         '/-- (entry, format, what()) for every explored path on which the real code threw. -/',
+         'def throwingPaths : List (String × Nat × String) := [%s]' % ', '.join(rows), '',
+         '/-- Entries whose repeated runs along the same branch outcomes produced different results. -/',
+         'def inconsistentEntries : List (String × Nat) := [%s]' % ', '.join(bad), '',
+         'def tracedInstantiations : Nat := %d' % n, '', 'end PhQVerif.Generated']
+    em.write('Throws.lean', '\n'.join(L) + '\n')
 
 
 def emit_serial(em):
